@@ -51,7 +51,7 @@ def nondetSites : List String := ["modules/tibc/light-clients/09-eth/types/algor
   "modules/tibc/light-clients/09-eth/types/algorithm.go:generateDataset:time.Now",
   "modules/tibc/light-clients/09-eth/types/algorithm.go:generateDataset:time.Since",
   "modules/tibc/light-clients/09-eth/types/ethash.go:memoryMapAndGenerate:math/rand.Int",
-  "modules/tibc/light-clients/09-eth/types/header.go:verifyCascadingFields:os.TempDir",
+  "modules/tibc/light-clients/09-eth/types/header.go:verifyCascadingFields:io/ioutil.TempDir",
   "modules/tibc/light-clients/09-eth/types/sealer.go:Seal:crypto/rand.Int",
   "modules/tibc/light-clients/09-eth/types/sealer.go:Seal:crypto/rand.Reader",
   "modules/tibc/light-clients/09-eth/types/sealer.go:Seal:math/rand.New",
